@@ -322,6 +322,11 @@ func (s *Stream) WriteSCTP(payload []byte, ppi PayloadProtocolIdentifier) (int, 
 	// sequence number / message identifier (the peer would wait forever for
 	// it) nor engage the blocking-write gate.
 	if len(payload) == 0 {
+		if state := s.association.getState(); state != established {
+			return 0, fmt.Errorf("%w: state=%s", ErrPayloadDataStateNotExist,
+				getAssociationStateString(state))
+		}
+
 		return 0, nil
 	}
 
